@@ -337,11 +337,13 @@ func (mw *msgWriter) addFiles(files []*File, isAttachment bool) {
 				mw.encoder.Encode(mw.charset.String(), sanitizeFilename(file.Name))))
 		}
 
-		if _, ok := file.getHeader(HeaderContentTransferEnc); !ok {
+		if cte, ok := file.getHeader(HeaderContentTransferEnc); !ok {
 			if file.Enc != "" {
 				encoding = file.Enc
 			}
 			file.setHeader(HeaderContentTransferEnc, string(encoding))
+		} else {
+			encoding = Encoding(cte)
 		}
 
 		if file.Desc != "" {
